@@ -236,6 +236,15 @@ def rule_r5(ctx):
         for n in name_tests:
             consulted_names.add(n)
         if wraps:
+            # Python makes these methods class methods AFTER the decorators have been applied
+            stores = [e for e in evs if e.kind == "store" and isinstance(e.extra.get("name"), UPrim) and e.extra["name"].field == "name"]
+            outer = stores[-1].node.fields.get("value") if stores else None
+            if not (isinstance(outer, TNode) and outer.kind == "Call" and _is_name_call(outer, "classmethod")):
+                rr.fail(
+                    "C12-R5|FunctionDef|wrap-not-outermost",
+                    f"PendingFunctionDef.get_result: the implicit classmethod() wrap is applied BEFORE the method's own decorators: a decorator on __init_subclass__/__class_getitem__ receives a classmethod object instead of the function ('classmethod' object is not callable) [context: {short_ctx(pr, 90)}]",
+                    what="wrap|order",
+                )
             if fixed:
                 wrapped_names.add(fixed)
             if is_method and not is_method[0]:
